@@ -3,6 +3,8 @@
 # certain rights in this software.
 """Fill in the value in a let-statement directly into a tree"""
 
+import numbers
+
 from jaqalpaq.error import JaqalError
 from jaqalpaq.core.algorithm.visitor import Visitor
 from jaqalpaq.core import circuitbuilder
@@ -33,6 +35,19 @@ def as_index(value):
     if isinstance(value, float) and value.is_integer():
         return int(value)
     return value
+
+
+def as_number(name, value):
+    """An override value as a plain int or float. Numbers of other types
+    (numpy scalars) are converted, so that they are written as Jaqal numbers;
+    anything else, and bool, is rejected."""
+    if isinstance(value, bool):
+        raise JaqalError(f"Invalid/non-numeric value {value} for constant {name}!")
+    if isinstance(value, numbers.Integral):
+        return int(value)
+    if isinstance(value, numbers.Real):
+        return float(value)
+    raise JaqalError(f"Invalid/non-numeric value {value} for constant {name}!")
 
 
 class LetFiller(Visitor):
@@ -184,7 +199,7 @@ class LetFiller(Visitor):
         """Return the value for the given constant defined either in the
         override_dict or in the circuit itself."""
         if const.name in self.override_dict:
-            return self.override_dict[const.name]
+            return as_number(const.name, self.override_dict[const.name])
         if isinstance(const.value, (int, float)):
             return const.value
         else:
